@@ -87,7 +87,7 @@ fn show_hop(full: bool, st: &State, flow: FlowId, h: &Hop) -> String {
     } else {
         format!("{}/{}/{}/{}", s.len(), s.iter().sum::<u64>(), opt(s.first()), opt(s.last()))
     };
-    let ad = h.addrs_with_counts().map(|(a, n)| format!("{}:{n}", id_of(*a))).collect::<Vec<_>>().join(",");
+    let ad = h.addrs_with_counts().map(|(a, n)| format!("{}:{n}", crate::strategy::host_str(*a))).collect::<Vec<_>>().join(",");
     format!(
         "t={} s={} r={} f={} fw={} bw={} tt={} l={} b={} w={} jitter={} jmax={} javg={} jinta={} loss={} floss={} bloss={} avg={} sd={} sp={} dp={} sq={} k={} nat={} tos={} ext={} tg={} ir={} sm={sm} ad=[{ad}]",
         h.ttl(), h.total_sent(), h.total_recv(), h.total_failed(), h.total_forward_loss(), h.total_backward_loss(),
@@ -117,7 +117,7 @@ fn show_flow(mode: u8, st: &State, id: FlowId) -> String {
 fn show_reg_entry(e: &(trippy_core::verif::Flow, FlowId)) -> String {
     let es = e.0.entries.iter().map(|x| match x {
         FlowEntry::Unknown => "*".to_string(),
-        FlowEntry::Known(a) => id_of(*a).to_string(),
+        FlowEntry::Known(a) => crate::strategy::host_str(*a),
     });
     format!("{}:[{}]", e.1 .0, es.collect::<Vec<_>>().join(","))
 }
@@ -135,7 +135,7 @@ fn show_brief(st: &State) -> String {
     parts.join(" | ")
 }
 
-fn show_full(st: &State) -> String {
+pub fn show_full(st: &State) -> String {
     let mut parts = vec![show_flow(2, st, FlowId(0))];
     for (_, id) in st.flows() {
         parts.push(show_flow(2, st, *id));
